@@ -31,7 +31,9 @@ rule instances that are unsound:
 * `C06_mult_partial`  — additionally no UNIQUE claim taken from the
   `disjoint_union` bookkeeping (FOR / UNION / FILTER), from an exclusive
   property over a possibly-duplicate source, or from the injective-operator
-  rule (`multSafe`);  counterexamples 3–7 show the excluded claims are wrong.
+  rule, or from `types_disjoint` against a union type (`multSafe`);  counterexamples 3–8 show the
+  excluded claims are wrong.  UNION of two plain object types whose lineages (type + all descendants)
+  are disjoint IS covered.
 -/
 import EdbVerif.Lemmas.MiniQLMult
 import EdbVerif.Lemmas.MiniQLCheck
@@ -171,7 +173,7 @@ theorem maxMultiplicity_ok (ms : List MultiplicityInfo) :
     functions that respects their declared return modifier. -/
 theorem C06_card_partial (sch : Schema) (db : DB) (hc : Conforms sch db) (hs : SigOK sch)
     (q : Q) (Γ : VCtx) (env : List Val) (ha : accepts sch Γ q = true)
-    (hn : noExclRule sch Γ q = true) (he : EnvOK db Γ env) :
+    (hn : noExclRule sch Γ q = true) (he : EnvOK sch db Γ env) :
     γ (inferCard sch Γ q) (eval sch db env q).length :=
   (card_ok sch db hc hs q Γ env ha hn he).1
 
@@ -179,7 +181,7 @@ theorem C06_card_partial (sch : Schema) (db : DB) (hc : Conforms sch db) (hs : S
     `multSafe`, for every `distinct_iterator` context. -/
 theorem C06_mult_partial (sch : Schema) (db : DB) (hc : Conforms sch db) (hs : SigOK sch)
     (q : Q) (Γ : VCtx) (env : List Val) (dist : Option Nat) (ha : accepts sch Γ q = true)
-    (hn : noExclRule sch Γ q = true) (hm : multSafe sch Γ dist q = true) (he : EnvOK db Γ env) :
+    (hn : noExclRule sch Γ q = true) (hm : multSafe sch Γ dist q = true) (he : EnvOK sch db Γ env) :
     γm (inferMult sch Γ dist q).info.own (eval sch db env q) :=
   mult_ok sch db hc hs q Γ env dist ha hn hm he
 
@@ -278,6 +280,45 @@ theorem C06_mult_counterexample_nested_for_flag_leak :
       (inferMult wsch [] none q).info.own = .UNIQUE ∧ ¬ (eval wsch wdbBase [] q).Nodup :=
   ⟨.for_ (.constSet [1, 2, 0]) (.for_ (.var 0) (.for_ (.constSet [0]) (.var 0))), by decide, by decide, by decide⟩
 
+/-- 8. `(T0 UNION T1) UNION T0` (T0, T1 unrelated): classified UNIQUE, every T0 object occurs twice.
+    The left operand has the union type `T0 | T1`; nothing descends from a union type, so
+    `types_disjoint` holds against any plain type, including its own components and their subtypes
+    (`{Person, Note, Robot}` with a common subtype of Person and Robot is the same defect). -/
+theorem C06_mult_counterexample_union_type_operand :
+    ∃ (q : Q), Conforms wsch wdbBase ∧ accepts wsch [] q = true ∧
+      (inferMult wsch [] none q).info.own = .UNIQUE ∧ ¬ (eval wsch wdbBase [] q).Nodup :=
+  ⟨.union (.union (.root 0) (.root 1)) (.root 0), checkDB_sound _ _ (by decide), by decide, by decide,
+   by decide⟩
+
+/-! ### inheritance: UNION of object types -/
+
+/-- `T0 Named ← T1 Person ← T2 Employee; T3 Robot extending Named; T4 Cyborg extending Employee, Robot;
+    T5 Note`, with `p0` a multi link Named → Note -/
+def hsch : Schema :=
+  { ptrs := [⟨0, false, true, some 5, false⟩], fns := [],
+    descs := [[1, 2, 3, 4], [2, 4], [4], [4]] }
+
+/-- one object of every type -/
+def hdb : DB :=
+  { objs := [(1, 0), (2, 1), (3, 2), (4, 3), (5, 4), (6, 5)],
+    ptrs := [((0, 1), [.obj 6]), ((0, 5), [.obj 6])] }
+
+/-- the disjointness test looks at ALL descendants: a type and its grandchild, and two siblings sharing a
+    deep subtype (diamond), are not disjoint; unrelated types are, and then the union is duplicate-free
+    (an instance of `C06_mult_partial`) -/
+example : Conforms hsch hdb ∧
+    typesDisjoint hsch (.obj [0]) (.obj [2]) = false ∧ typesDisjoint hsch (.obj [1]) (.obj [3]) = false ∧
+    typesDisjoint hsch (.obj [1]) (.obj [5]) = true ∧
+    (inferMult hsch [] none (.union (.root 0) (.root 2))).info.own = .DUPLICATE ∧
+    (inferMult hsch [] none (.union (.root 1) (.root 3))).info.own = .DUPLICATE ∧
+    eval hsch hdb [] (.union (.root 1) (.root 3)) = [.obj 2, .obj 3, .obj 5, .obj 4, .obj 5] ∧
+    accepts hsch [] (.path (.union (.root 1) (.root 5)) 0) = false ∧
+    multSafe hsch [] none (.union (.root 1) (.root 5)) = true ∧
+    (inferMult hsch [] none (.union (.root 1) (.root 5))).info.own = .UNIQUE ∧
+    eval hsch hdb [] (.path (.union (.root 0) (.root 2)) 0) = [.obj 6] :=
+  ⟨checkDB_sound _ _ (by decide), by decide, by decide, by decide, by decide, by decide, by decide, by decide,
+   by decide, by decide, by decide⟩
+
 /-! ### non-vacuity: the hypotheses of the partial theorems are met by non-trivial queries -/
 
 /-- `SELECT (FOR x IN T0 UNION (x.p0, count(x.p2))) …`-like query through paths, FOR, a tuple and
@@ -286,7 +327,7 @@ def exQ : Q :=
   .distinct (.union (.path (.root 0) 2) (.path (.filter (.root 0) (eqQ (.path (.var 0) 1) (.lit 7))) 2))
 
 example : Conforms wsch wdbBase ∧ SigOK wsch ∧ accepts wsch [] exQ = true ∧
-    noExclRule wsch [] exQ = true ∧ multSafe wsch [] none exQ = true ∧ EnvOK wdbBase [] [] ∧
+    noExclRule wsch [] exQ = true ∧ multSafe wsch [] none exQ = true ∧ EnvOK wsch wdbBase [] [] ∧
     inferCard wsch [] exQ = .MANY ∧ (inferMult wsch [] none exQ).info.own = .UNIQUE ∧
     eval wsch wdbBase [] exQ = [.obj 3] :=
   ⟨checkDB_sound _ _ (by decide), wsch_sig, by decide, by decide, by decide, .nil, by decide, by decide,
